@@ -183,6 +183,47 @@ func planC12(tier string, root *simcore.RNG) *plan {
 				Sched: genSched(r, []string{"consumer", "renderer"}), Note: "nonfinite"})
 		}
 	}
+	// part 1f: the other renderers over a range of resolutions and models (every
+	// renderer must return for every resolution, including degenerate ones)
+	{
+		type sw struct {
+			kind   string
+			models []string
+			cells  []int
+			sink   string
+		}
+		rng := func(a, b, step int) []int {
+			var out []int
+			for c := a; c <= b; c += step {
+				out = append(out, c)
+			}
+			return out
+		}
+		step := 3
+		if thorough {
+			step = 1
+		}
+		sweeps := []sw{
+			{"mco", []string{"cube", "csg", "sphere-box"}, rng(1, 32, step), "tri"},
+			{"msu", model2Names, rng(1, 64, 2*step), "svg"},
+			{"msq", model2Names, rng(1, 64, 2*step), "dxf"},
+			{"dc2", model2Names, rng(1, 40, 2*step), "svg"},
+			{"dc3v2", []string{"sphere-box", "csg", "cube"}, rng(1, 9, step), "tri"},
+			{"dc3v1", []string{"sphere-box", "cube"}, rng(1, 7, step), "tri"},
+		}
+		for _, s := range sweeps {
+			for _, c := range s.cells {
+				r := root.Fork()
+				j := Job{ID: 1, Kind: s.kind, Sink: s.sink, Model: pick(r, s.models), Cells: c}
+				sites := map[string]uint32{"close": 1, "go.start": 1, "auto": 4}
+				for _, hs := range sinkSites(s.sink) {
+					sites[hs] = 1
+				}
+				pl.scenarios = append(pl.scenarios, &Scenario{Prop: "C12", Family: "fault", Seed: r.Uint64(), Groups: [][]Job{{j}},
+					Sites: sites, Sched: Sched{Policy: pick(r, []string{"fifo", "uniform"}), Seed: r.Uint64()}, Env: genEnv(r), Note: "resolution-sweep"})
+			}
+		}
+	}
 	// part 1b: a failing sink next to healthy renders in the same process
 	// (they share the worker pool and the evaluation channel)
 	npairs := 40
@@ -256,6 +297,7 @@ func planC12(tier string, root *simcore.RNG) *plan {
 			{Kind: pick(r, []string{"msu", "msq", "dc2"}), Sink: "dxf", Model: pick(r, model2Names), Cells: 10 + r.Intn(10)},
 			{Kind: pick(r, []string{"msu", "msq", "dc2"}), Sink: "svg", Model: pick(r, model2Names), Cells: 10 + r.Intn(10)},
 			{Kind: "mco", Sink: pick(r, []string{"stl", "3mf", "tri"}), Model: pick(r, model3Names), Cells: 6 + r.Intn(6)},
+			{Kind: pick(r, []string{"dc3v2", "dc3v1"}), Sink: pick(r, []string{"tri", "stl"}), Model: pick(r, []string{"sphere-box", "csg"}), Cells: 4 + r.Intn(4)},
 		}
 		{
 			n := 300 + r.Intn(900)
